@@ -462,13 +462,19 @@ func Extremes() []Item {
 	var out []Item
 	// wide structs
 	for _, w := range []int{17, 64, 65, 130, 260} {
-		for _, sparse := range []bool{false, true} {
-			if sparse && w > 65 {
+		for _, mode := range []int{0, 1, 2} {
+			// 0: dense ascending; 1: sparse ascending; 2: dense, declared in an order that is NOT the index
+			// order (fields added in the middle later on, the usual way a struct evolves)
+			sparse := mode == 1
+			if mode != 0 && w > 65 {
 				continue
 			}
 			fs := make([]F, w)
 			for i := range fs {
 				idx := i + 1
+				if mode == 2 {
+					idx = (i*7)%w + 1 // a permutation of 1..w for every w used here (none divisible by 7)
+				}
 				if sparse {
 					idx = i * 67 // 0 (the lowest index the library accepts) up to 4300: fieldsByIndex is a dense table
 				}
